@@ -41,8 +41,8 @@ def gen_avps(rng, rows_by_ty, nmax, depth):
         if rng.random() < 0.2:       # the same code under a different vendor (or none): a different AVP
             v2 = rng.choice([10415, 9999999]) if a.vendor_id == 0 else rng.choice([0, 0, a.vendor_id + 1])
             pl = bytes(rng.getrandbits(8) for _ in range(rng.choice([0, 4, 5, 12])))
-            from diameter.message.avp.avp import get_avp_dictionary_entry
-            if get_avp_dictionary_entry(a.code, v2) is not None:
+            import implobs as _O
+            if _O.dict_entry(a.code, v2) is not None:
                 continue             # a defined pair would need a payload of its own type
             # reserved flag bits travel unchanged through a generic decode / re-encode
             t = A.Avp(a.code, v2, pl, (0x80 if v2 else 0) | rng.choice([0, 0x40]) | rng.choice([0, 0, 0x01, 0x08, 0x1f]))
